@@ -493,7 +493,18 @@ class Interp:
         # (a value read from a dict or passed as an argument is never `absent`)
         opts = [V.is_vbytes(e), V.is_vint(e), V.is_vblist(e), V.is_vbool(e), V.is_vstr(e), V.is_vfloat(e),
                 V.is_vnone(e), V.is_vref(e), V.is_vopq(e)]
-        k = self.ctx.choose(opts, 'type')
+        k = None
+        se = z3.simplify(e)
+        if z3.is_app(se) and se.decl().name() in _VAL_CTORS:
+            # the value is syntactically a constructor application: its kind is known, no decision
+            k = _VAL_CTORS[se.decl().name()]
+            e = se
+        if k is None:
+            k = self.ctx.choose(opts, 'type')
+        if k == 2 and z3.is_app(e) and e.decl().name() == 'vblist' and (z3.is_true(e.arg(2)) or z3.is_false(e.arg(2))):
+            kind = 'tuple' if z3.is_true(e.arg(2)) else 'list'
+            self.ctx.assume(V.ll(e) >= 0)
+            return ZList('bytes', V.la(e), V.ll(e), kind=kind)
         if k == 0:
             return sym_bytes(V.y(e))
         if k == 1:
@@ -1719,6 +1730,12 @@ class Interp:
                 c = False
         if isinstance(c, bool):
             return self.ev(e.body if c else e.orelse, env)
+        if self.ctx.ghost.get('lemma_mode') and not self.ctx.ghost.get('speculating', 0):
+            # lemma mode: fork rather than merge (a merged value may be program text, e.g. the body
+            # OP_IF_ELSE selects, and control flow must stay concrete)
+            if self.ctx.branch(c, 'ifexp'):
+                return self.ev(e.body, env)
+            return self.ev(e.orelse, env)
         # try ite merge
         boxes = []
         for arm, g in ((e.body, c), (e.orelse, z3.Not(c))):
@@ -2021,6 +2038,9 @@ class _Method:
     def __init__(self, obj, name):
         self.obj = obj
         self.name = name
+
+
+_VAL_CTORS = {'vbytes': 0, 'vint': 1, 'vblist': 2, 'vbool': 3, 'vstr': 4, 'vfloat': 5, 'vnone': 6, 'vref': 7, 'vopq': 8}
 
 
 class LazyClause:
